@@ -478,7 +478,7 @@ def main():
     head, dirty = repo_state()
     log(f"[{prop}] tier={args.tier} seed={seed} harnesses={len(hs)} repo={head[:10]}{'+dirty' if dirty else ''}")
 
-    mem_kb = int(P.get("mem_gb", 14) * 1024 * 1024)
+    mem_kb = int(float(os.environ.get("VERIF_MEM_GB", P.get("mem_gb", 14))) * 1024 * 1024)
     jobs = min(args.jobs, P.get("jobs", args.jobs))
     light = [h for h in hs if not h.get("heavy")]
     heavy = [h for h in hs if h.get("heavy")]
